@@ -1,5 +1,5 @@
 (* Extraction of the executable models to OCaml (ExtrOcamlBasic only; N/Z/positive stay inductive). *)
-From VF Require Import Bytes Meta Lock Region Freelist Alloc PageBuf Writer WriterQueue Truncate Api OpenLock Pages Recover CrashModel Monitor PQ TxCore PQAck PQWriter.
+From VF Require Import Bytes Meta Lock Region Freelist Alloc PageBuf Writer WriterQueue Truncate Api OpenLock Pages Recover CrashModel Monitor PQ TxCore PQAck PQWriter Commit.
 From Coq Require Import ExtrOcamlBasic.
 Extraction Language OCaml.
 Set Extraction KeepSingleton.
@@ -21,5 +21,5 @@ Extraction "model.ml"
   mon_init mon_step mon_recover chase_full hdr_of image_disk
   read_freelist read_wal write_freelists write_wal recover_image protected_page wal_lookup pred_add pred_add_all
   lock_apply run_labels thread_step lk_idle
-  w_init w_step
+  w_init w_step commit_events
   valid_slot checksum_of read_valid_meta read_valid_meta_win choose decode_header encode_header.
